@@ -26,8 +26,8 @@
 //	{"op":"end"}                        remove all gates, wait for the outstanding calls up to their deadline
 //
 // trace: {"ev":"reset",...} then one event per observation, in the order of one global sequence:
-// arrive / verdict / shutdown / end (stamped by the harness), enq / pick / quota / grant / expire and the
-// implementation-level slot / tick / requeue / stopall / stopall_done / before_remove / removed (stamped by
+// arrive / verdict / shutdown / end (stamped by the harness), enq / pick / quota / grant / expire / drain and the
+// implementation-level slot / tick / requeue / stopall_done / before_remove / removed (stamped by
 // the yield points), diverged (the script could not be followed; everything then runs freely), crash /
 // abort (appended by the parent: the child died / the harness itself failed).
 package main
@@ -60,10 +60,11 @@ import (
 type Config struct {
 	Align     bool `json:"align,omitempty"` // start the scenario clock 100 ms after a wall-clock second boundary
 	TTLs      int  `json:"ttl_s"`
-	QueueSize int `json:"queue_size"`
-	QMax      int `json:"qmax"`
-	QWins     int `json:"qwin_s"`
-	SlackMs   int `json:"slack_ms"`
+	QueueSize int  `json:"queue_size"`
+	QMax      int  `json:"qmax"`
+	QWins     int  `json:"qwin_s"`
+	SlackMs   int  `json:"slack_ms"`
+	Procs     int  `json:"gomaxprocs,omitempty"` // GOMAXPROCS of the child (0 = default)
 }
 
 type Step struct {
@@ -309,7 +310,7 @@ flow:
 
 var pointEvent = map[string]string{
 	"q.after_slot_check": "slot", "q.enqueued": "enq", "q.loop_tick": "tick", "q.loop_pop": "pick",
-	"q.quota": "quota", "q.requeued": "requeue", "q.stopall": "stopall", "q.stopall_done": "stopall_done",
+	"q.quota": "quota", "q.requeued": "requeue", "q.stopall": "drain", "q.stopall_done": "stopall_done",
 	"q.before_remove": "before_remove", "q.removed": "removed",
 }
 
@@ -543,6 +544,9 @@ func run(scPath, outdir string, par int) {
 			defer cancel()
 			cmd := exec.CommandContext(ctx, self, "child", sp, tp)
 			cmd.Dir = cwd
+			if scs[i].Config.Procs > 0 {
+				cmd.Env = append(os.Environ(), "GOMAXPROCS="+strconv.Itoa(scs[i].Config.Procs))
+			}
 			var stderr bytes.Buffer
 			cmd.Stderr = &stderr
 			err := cmd.Run()
